@@ -367,6 +367,33 @@ def encode_side(ctx, dec, enc, msg, spec, mode, fsig):
         ctx.violate('encode-raises:%s/%s/%s' % (type(e).__name__, mode, fsig),
                     'encoder raised %s on conforming bitmap/associated-field values: %s' % (type(e).__name__, str(e)[:120]), spec, exc=e)
         return
+    # the same values in other forms: a bitmap bit "not present" given as null (a one-bit field has no missing value: null is written
+    # as 1, exactly like 1) or as true, "present" given as false; values as parsed lists / tuples - the same bytes
+    try:
+        fj = json.loads(json.dumps(R.flat_json(msg)))
+        rows = fj[-2][-1]
+        for form, one, zero in (('bitmap-bits-null-for-1', None, 0), ('bitmap-bits-true-false', True, False), ('bitmap-bits-floats', 1.0, 0.0)):
+            v = json.loads(json.dumps(fj))
+            n_bits = 0
+            for si, srow in enumerate(v[-2][-1]):
+                for j, lab in enumerate(msg.subsets[si].labels):
+                    if lab == '031031' and j < len(srow):
+                        srow[j] = one if srow[j] == 1 else zero
+                        n_bits += 1
+            if not n_bits:
+                break
+            ctx.count('encodes_with_bitmap_bits_in_other_forms')
+            try:
+                out2 = enc.process(v if form != 'bitmap-bits-null-for-1' else json.dumps(v)).serialized_bytes
+            except Exception:
+                ctx.count('bitmap_bit_forms_refused')
+                continue
+            if out2 != out:
+                ctx.violate('encode-bytes-differ/input-form/%s/%s' % (form, mode), 'the encoder given the bitmap bits as %s writes other bytes than for 0/1 '
+                            '(other owners designated?)' % form, dict(spec, form=form), expected=out.hex()[:600], observed=out2.hex()[:600])
+                break
+    except Exception as e:
+        ctx.notes.append('bitmap bit forms skipped: %r' % (e,))
     if not msg.compressed:
         if out != msg.bytes:
             ctx.violate('encode-bytes-differ/%s/%s' % (mode, fsig), 'encoder output differs from the reference message '
